@@ -165,11 +165,20 @@ def fillBanks (banks : List Bank) (out : List Bool) : List Bool :=
 def checkBankUsage (banks : List Bank) (s : IterSt) : Except LayErr Unit :=
   if s.bank = 0 ∧ banks.length ≠ 1 then .error .defaultBank else .ok ()
 
+/-- the item's position in the output must be addressable (finding F81, repaired: `outp + position` wrapped around in the
+    released binary and the item landed outside its bank's window) -/
+def outputFits (b : Bank) (cur size : Nat) : Bool :=
+  match b.outp with
+  | some o => o + cur + size < 2 ^ 64
+  | none => true
+
 def checkBankOutput (b : Bank) (cur size : Nat) (write : Bool) : Except LayErr Unit :=
   match b.size with
   | some bs => if cur + size > bs then .error .outOfRange
+               else if !outputFits b cur size then .error .valueRange
                else if write ∧ b.outp.isNone then .error .nonWritable else .ok ()
-  | none => if write ∧ b.outp.isNone then .error .nonWritable else .ok ()
+  | none => if !outputFits b cur size then .error .valueRange
+            else if write ∧ b.outp.isNone then .error .nonWritable else .ok ()
 
 structure BuildSt where
   it : IterSt
